@@ -105,18 +105,18 @@ def build(s, kind):
     return port, dut
 
 
-def run_generator(s, rnd, tier):
-    """returns dict(lines, obs, cmds, datas, done_cycle)"""
+def run_generator(s, rnd, tier, second_run=False):
+    """returns dict(lines, obs, cmds, datas, done[, cmds2, datas2, done2]); with second_run the core is reset after the first
+    run has finished and started again with the same settings"""
     from migen import run_simulation
     port, dut = build(s, "gen")
     ctl = Ctl(dut, s["wrapper"])
     cmd, wdata = (port.aw, port.w) if s["axi"] else (port.cmd, port.wdata)
     done_sig, ticks_sig, _ = ctl.status()
     lines = [cfg_line(s), "0 0 1 0 0"]
-    obs, cmds, datas = [], [], []
-    info = dict(done=None, resets=0)
-    budget = 60 * s["n"] + 400
-    with_reset = rnd.random() < 0.25
+    obs = []
+    runs = [dict(cmds=[], datas=[], done=None), dict(cmds=[], datas=[], done=None)]
+    budget = (60 * s["n"] + 400) * (2 if second_run else 1)
 
     def gen():
         yield from ctl.settings(s)
@@ -124,39 +124,43 @@ def run_generator(s, rnd, tier):
         started = False
         p_cmd, p_w, p_casc = 0.8, 0.8, 1.0
         tail = None
+        phase = 0
         for t in range(budget):
+            cur = runs[phase]
             if prev is not None:
                 o = ((yield done_sig), (yield ticks_sig), (yield ctl.core.run_cascade_out), (yield cmd.valid), (yield cmd.addr), (yield wdata.valid), (yield wdata.data))
                 o = (o[0], o[1], o[2], o[3], o[4] if o[3] else 0, o[5], o[6] if o[5] else 0)
                 obs.append("%d %d %d %d %d %d %d" % o)
                 rst_, st_, ci_, cr_, wr_ = prev
                 if o[3] and cr_:
-                    cmds.append(o[4])
+                    cur["cmds"].append(o[4])
                 if o[5] and wr_:
-                    datas.append(o[6])
-                if o[0] and info["done"] is None:
-                    info["done"] = t
+                    cur["datas"].append(o[6])
+                if o[0] and cur["done"] is None and not rst_:
+                    cur["done"] = t
                     tail = t + 12
-                if rst_:
-                    # a reset mid-run abandons the run: what was written so far stays, the run restarts from position 0
-                    info["resets"] += 1
+            rst = 0
             if tail is not None and t >= tail:
-                break
+                if second_run and phase == 0:
+                    phase = 1; tail = None; started = False; rst = 1      # reset, then run again
+                else:
+                    break
             if t % 40 == 0:
                 p_cmd = rnd.choice([0.15, 0.6, 1.0]); p_w = rnd.choice([0.1, 0.6, 1.0]); p_casc = rnd.choice([0.3, 1.0, 1.0])
-            rst = 0
             start = 0
-            if not started and t >= 1 and rnd.random() < 0.5:
-                start, started = 1, True
-            elif started and rnd.random() < 0.01:
-                start = 1            # a start strobe outside IDLE must be ignored
+            if not rst:
+                if not started and t >= 1 and rnd.random() < 0.5:
+                    start, started = 1, True
+                elif started and rnd.random() < 0.01:
+                    start = 1            # a start strobe outside IDLE must be ignored
             prev = (rst, start, int(rnd.random() < p_casc), int(rnd.random() < p_cmd), int(rnd.random() < p_w))
             yield from ctl.strobes(prev[0], prev[1])
             yield ctl.core.run_cascade_in.eq(prev[2]); yield cmd.ready.eq(prev[3]); yield wdata.ready.eq(prev[4])
             lines.append("%d %d %d %d %d" % prev)
             yield
     run_simulation(dut, gen())
-    return dict(lines=lines, obs=obs, cmds=cmds, datas=datas, done=info["done"])
+    return dict(lines=lines, obs=obs, cmds=runs[0]["cmds"], datas=runs[0]["datas"], done=runs[0]["done"],
+                cmds2=runs[1]["cmds"], datas2=runs[1]["datas"], done2=runs[1]["done"])
 
 
 def run_reset_generator(s, rnd):
@@ -186,8 +190,8 @@ def run_reset_generator(s, rnd):
     return dict(lines=lines, obs=obs)
 
 
-def run_checker(s, rnd, mem, with_noise):
-    """mem: dict port-address -> word. returns dict(lines, obs, errors, done)"""
+def run_checker(s, rnd, mem, with_noise, second_run=False):
+    """mem: dict port-address -> word. returns dict(lines, obs, errors, done, reads, noise[, errors2, done2])"""
     from migen import run_simulation
     port, dut = build(s, "chk")
     ctl = Ctl(dut, s["wrapper"])
@@ -195,8 +199,9 @@ def run_checker(s, rnd, mem, with_noise):
     done_sig, ticks_sig, err_sig = ctl.status()
     lines = [cfg_line(s), "0 0 1 0 0 0"]
     obs = []
-    info = dict(done=None, errors=None, reads=[], noise=0)
-    budget = 80 * s["n"] + 500
+    info = dict(noise=0)
+    runs = [dict(done=None, errors=None, reads=[]), dict(done=None, errors=None, reads=[])]
+    budget = (80 * s["n"] + 500) * (2 if second_run else 1)
 
     def gen():
         yield from ctl.settings(s)
@@ -205,37 +210,45 @@ def run_checker(s, rnd, mem, with_noise):
         inflight = []
         p_cmd, p_casc, p_rd = 0.8, 1.0, 0.8
         tail = None
+        phase = 0
         for t in range(budget):
+            cur = runs[phase]
             if prev is not None:
                 o = ((yield done_sig), (yield err_sig), (yield ticks_sig), (yield ctl.core.run_cascade_out), (yield cmd.valid), (yield cmd.addr), (yield rdata.ready))
                 o = (o[0], o[1], o[2], o[3], o[4], o[5] if o[4] else 0, o[6])
                 obs.append("%d %d %d %d %d %d %d" % o)
                 rst_, st_, ci_, cr_, rv_, rd_ = prev
                 if o[4] and cr_:
-                    info["reads"].append(o[5])
+                    cur["reads"].append(o[5])
                     inflight.append([t + rnd.randint(1, 10), mem.get(o[5], 0)])
-                if o[0] and info["done"] is None:
-                    info["done"] = t; info["errors"] = o[1]
+                if o[0] and cur["done"] is None and not rst_:
+                    cur["done"] = t; cur["errors"] = o[1]
                     tail = t + 10
-            if tail is not None and t >= tail:
-                break
+            rst = 0
+            if tail is not None and t >= tail and not inflight:
+                if second_run and phase == 0:
+                    phase = 1; tail = None; started = False; rst = 1
+                else:
+                    break
             if t % 40 == 0:
                 p_cmd = rnd.choice([0.15, 0.6, 1.0]); p_casc = rnd.choice([0.3, 1.0, 1.0]); p_rd = rnd.choice([0.2, 0.8, 1.0])
             start = 0
-            if not started and t >= 1 and rnd.random() < 0.5:
-                start, started = 1, True
-            elif started and with_noise and rnd.random() < 0.01:
-                start = 1; info["noise"] += 1
+            if not rst:
+                if not started and t >= 1 and rnd.random() < 0.5:
+                    start, started = 1, True
+                elif started and with_noise and rnd.random() < 0.01:
+                    start = 1; info["noise"] += 1
             rv, rd = 0, 0
             if inflight and inflight[0][0] <= t and rnd.random() < p_rd:
                 rv, rd = 1, inflight.pop(0)[1]
-            prev = (0, start, int(rnd.random() < p_casc), int(rnd.random() < p_cmd), rv, rd)
+            prev = (rst, start, int(rnd.random() < p_casc), int(rnd.random() < p_cmd), rv, rd)
             yield from ctl.strobes(prev[0], prev[1])
             yield ctl.core.run_cascade_in.eq(prev[2]); yield cmd.ready.eq(prev[3]); yield rdata.valid.eq(rv); yield rdata.data.eq(rd)
             lines.append("%d %d %d %d %d %d" % prev)
             yield
     run_simulation(dut, gen())
-    return dict(lines=lines, obs=obs, errors=info["errors"], done=info["done"], reads=info["reads"], noise=info["noise"])
+    return dict(lines=lines, obs=obs, errors=runs[0]["errors"], done=runs[0]["done"], reads=runs[0]["reads"], noise=info["noise"],
+                errors2=runs[1]["errors"], done2=runs[1]["done"], reads2=runs[1]["reads"])
 
 
 def compare(r, where, s, model, lines, obs, idle, key):
@@ -261,7 +274,8 @@ def job(args):
     r.coverage["by_width"] = {"%dbit_%s%s" % (s["dw"], "axi" if s["axi"] else "native", "_csr" if s["wrapper"] else ""): 1}
     r.coverage["modes"] = {"data_%s_addr_%s" % ("rand" if s["rd"] else "seq", "rand" if s["ra"] else "seq"): 1}
     # ---- generator
-    g = run_generator(s, rnd, tier)
+    two_runs = idx % 2 == 1          # the core is reset after its run and started again: the second run must be the same run
+    g = run_generator(s, rnd, tier, second_run=two_runs)
     compare(r, "_LiteDRAMBISTGenerator vs Model/Bist.lean", s, "bistgen", g["lines"], g["obs"], (3, 5), ("g", idx))
     n = s["n"]
     spec_lines = [cfg_line(s)] + ["4 %d" % i for i in range(n)] + ["5"]
@@ -278,6 +292,15 @@ def job(args):
         r.violations.append(dict(signature="c14-gen-sequence", what="%d-bit %s: generator wrote %d commands / %d data words for a %d-word run; first differing command position %s, data position %s"
                                  % (s["dw"], "AXI" if s["axi"] else "native", len(g["cmds"]), len(g["datas"]), n, k, kd),
                                  replay=dict(tag, written_addr=g["cmds"][:40], expected_addr=exp_addr[:40], written_data=g["datas"][:40], expected_data=exp_data[:40])))
+    if two_runs:
+        r.coverage["second_runs_after_reset"] = 1
+        if g["done2"] is None:
+            r.violations.append(dict(signature="c14-gen-not-done", what="generator never reports done in its second run after a reset (n=%d words)" % n, replay=tag))
+        elif g["cmds2"] != exp_addr or g["datas2"] != exp_data:
+            k2 = next((i for i in range(n) if i >= len(g["datas2"]) or i >= len(g["cmds2"]) or g["datas2"][i] != exp_data[i] or g["cmds2"][i] != exp_addr[i]), None)
+            r.violations.append(dict(signature="c14-gen-sequence", what="%d-bit %s, %s data, %s addresses: after a reset the generator's second run differs from the sequence at position %s (wrote %d commands / %d data words for a %d-word run)"
+                                     % (s["dw"], "AXI" if s["axi"] else "native", "random" if s["rd"] else "sequential", "random" if s["ra"] else "sequential", k2, len(g["cmds2"]), len(g["datas2"]), n),
+                                     replay=dict(tag, second_run_addr=g["cmds2"][:40], second_run_data=g["datas2"][:40], expected_addr=exp_addr[:40], expected_data=exp_data[:40])))
     # range
     outside = [(i, a) for i, a in enumerate(g["cmds"]) if i < n and not seq[i][2]]
     r.coverage["writes_checked_for_range"] = len(g["cmds"])
@@ -308,7 +331,7 @@ def job(args):
         mon.append("1 %d %d" % (a, v))
     mon.append("3 %d" % n)
     expected_errors = int(core.run_driver("bistspec", mon)[-1])
-    c = run_checker(s, rnd, mem, with_noise=(idx % 2 == 0))
+    c = run_checker(s, rnd, mem, with_noise=(idx % 2 == 0), second_run=two_runs)
     compare(r, "_LiteDRAMBISTChecker vs Model/Bist.lean", s, "bistchk", c["lines"], c["obs"], (4, ), ("c", idx))
     r.coverage["corrupted_words"] = len(cor)
     if c["done"] is None:
@@ -324,6 +347,13 @@ def job(args):
         if (c["reads"][:n] if c["noise"] else c["reads"]) != exp_addr:
             r.violations.append(dict(signature="c14-chk-address-sequence", what="checker read addresses differ from the generator's sequence (n=%d)" % n,
                                      replay=dict(tag, reads=c["reads"][:40], expected=exp_addr[:40])))
+        if two_runs and not c["noise"]:
+            if c["done2"] is None:
+                r.violations.append(dict(signature="c14-chk-not-done", what="checker never reports done in its second run after a reset (n=%d words)" % n, replay=tag))
+            elif c["errors2"] != expected_errors or c["reads2"] != exp_addr:
+                r.violations.append(dict(signature="c14-error-count", what="%d-bit %s, %s data, n=%d, %d corrupted words: after a reset the second check of the same memory reports %d errors (first check %d), %d positions differ"
+                                         % (s["dw"], "AXI" if s["axi"] else "native", "random" if s["rd"] else "sequential", n, len(cor), c["errors2"], c["errors"], expected_errors),
+                                         replay=dict(tag, corrupted=cor, second_reads=c["reads2"][:40], expected_reads=exp_addr[:40])))
         # corollaries on this run
         if len(set(exp_addr)) == n and not cor and expected_errors != 0:
             r.violations.append(dict(signature="c14-faithful-nonzero", what="faithful memory, no repeated address, yet %d errors expected" % expected_errors, replay=tag))
